@@ -10,6 +10,8 @@ import (
 )
 
 var repo, outDir string
+var verbose bool
+var only string
 var failures []string
 
 func fail(format string, a ...interface{}) {
@@ -40,9 +42,14 @@ func register(name string, f func()) { generators = append(generators, generator
 func main() {
 	flag.StringVar(&repo, "repo", "/repo", "repository root")
 	flag.StringVar(&outDir, "out", "/verif/coq/Gen", "output directory")
+	flag.BoolVar(&verbose, "v", false, "verbose")
+	flag.StringVar(&only, "only", "", "run only this generator")
 	flag.Parse()
 	os.MkdirAll(outDir, 0o755)
 	for _, g := range generators {
+		if only != "" && g.name != only {
+			continue
+		}
 		g.run()
 	}
 	if len(failures) > 0 {
